@@ -6,9 +6,12 @@
   C15-inherited-dict);
 * the defaults of TemplateLoader.__init__;
 * whether the lock a TemplateLoader creates is re-entrant (probed on an instance: a second
-  non-blocking acquire by the same thread succeeds).
+  non-blocking acquire by the same thread succeeds);
+* whether `directory()` remembers the modification time of the file it *opened* (probed: the file
+  is replaced by another one right after `open` returned; the up-to-date check handed out must
+  then say "changed").
 """
-import inspect
+import inspect, os, shutil, tempfile
 from harness.extract_tables import HEADER, strlist
 
 MAPPING_METHODS = ['get', 'keys', 'values', 'items', 'pop', 'popitem', 'setdefault', 'update', 'clear',
@@ -33,6 +36,7 @@ def gen_loader():
                 lk.release()
         finally:
             lk.release()
+    opened = probe_mtime_of_opened_file()
     parts = [HEADER, 'namespace Genshi.Gen.Loader\n']
     parts.append(strlist('lruOwnMethods', own, 'from genshi/util.py: functions defined in class LRUCache itself'))
     parts.append(strlist('lruInheritedMapping', inherited,
@@ -43,8 +47,54 @@ def gen_loader():
                  'def defaultAutoReload : Bool := %s\n' % ('true' if ar else 'false'))
     parts.append('/-- probed on TemplateLoader([])._lock: a second acquire by the same thread succeeds -/\n'
                  'def lockIsReentrant : Bool := %s\n' % ('true' if reentrant else 'false'))
+    parts.append('/-- probed on directory(): a file replaced right after `open` returned is reported as changed by the\n'
+                 '    up-to-date check (the modification time remembered is the one of the file that was opened) -/\n'
+                 'def mtimeOfOpenedFile : Bool := %s\n' % ('true' if opened else 'false'))
     parts.append('end Genshi.Gen.Loader\n')
     return 'Loader.lean', '\n'.join(parts)
+
+
+def probe_mtime_of_opened_file():
+    """replace the file between `open` and whatever follows inside the load function of
+    directory(); True iff the up-to-date check it returns notices the replacement"""
+    import genshi.template.loader as LM
+    build = os.path.join(os.path.dirname(os.path.dirname(os.path.abspath(__file__))), '.build')
+    os.makedirs(build, exist_ok=True)
+    d = tempfile.mkdtemp(prefix='extract-loader-', dir=build)
+    had = 'open' in vars(LM)
+    saved = vars(LM).get('open')
+    try:
+        p = os.path.join(d, 'a.txt')
+        with open(p, 'w') as f:
+            f.write('one')
+        os.utime(p, (1000001, 1000001))
+
+        def racing_open(path, *a, **kw):
+            fo = open(path, *a, **kw)
+            tmp = path + '.new'
+            with open(tmp, 'w') as f:
+                f.write('two')
+            os.utime(tmp, (1000002, 1000002))
+            os.replace(tmp, path)
+            return fo
+        LM.open = racing_open
+        try:
+            _, _, fileobj, uptodate = LM.directory(d)('a.txt')
+        finally:
+            if had:
+                LM.open = saved
+            else:
+                del LM.open
+        try:
+            content = fileobj.read()
+        finally:
+            fileobj.close()
+        if uptodate is None:
+            return True          # never up to date: always re-read
+        # stale content remembered as current = the defect
+        return not (content == b'one' and uptodate())
+    finally:
+        shutil.rmtree(d, ignore_errors=True)
 
 
 GENERATORS = [gen_loader]
